@@ -538,6 +538,12 @@ func (pg *patchGen) genOp0(cur interface{}) string {
 			}
 		}
 		if v, ok := lookup(cur, p); ok && chance(pg.pTestOK) {
+			if arr, isArr := v.([]interface{}); isArr && chance(0.3) {
+				// after a test has looked at this array, add below it where parents are missing (created
+				// under EnsurePathExistsOnAdd, an error otherwise)
+				pg.pending = append(pg.pending, fmt.Sprintf(`{"op":"add","path":%s,"value":1}`,
+					jsonStr(p+"/"+pick(strconv.Itoa(len(arr)+2)+"/z", strconv.Itoa(len(arr))+"/k/0", "0/nn/k", "-"))))
+			}
 			return fmt.Sprintf(`{"op":"test","path":%s,"value":%s}`, jsonStr(p), respell(v, g))
 		} else if ok && chance(0.5) {
 			// a near miss: the value found there with one small difference (a member renamed, a null
